@@ -54,6 +54,151 @@ func (c *Ctx) methodFn(named *types.Named, name string) *ssa.Function {
 	return nil
 }
 
+// methodBody is methodFn seen through a trampoline (see trampolineTarget): where the work of the method is done.
+func (c *Ctx) methodBody(named *types.Named, name string) *ssa.Function {
+	return c.trampolineTarget(c.methodFn(named, name))
+}
+
+// trampolineTarget: a method whose whole body is `return recv.other(params..., <fresh values>)` - the public face of an
+// operation whose work is done by a same-receiver method that takes some context in addition (ValidateCompatibility ->
+// validateCompatibilityIn, which carries the set of object pairs under comparison) - stands for that method: the rules
+// anchor on the body, whatever it is called.
+func (c *Ctx) trampolineTarget(fn *ssa.Function) *ssa.Function {
+	if fn == nil || len(fn.Blocks) != 1 || fn.Signature.Recv() == nil || len(fn.Params) == 0 {
+		return fn
+	}
+	var call *ssa.Call
+	for _, in := range fn.Blocks[0].Instrs {
+		switch x := in.(type) {
+		case *ssa.Call:
+			if call != nil {
+				return fn
+			}
+			call = x
+		case *ssa.Return:
+			if call == nil || len(x.Results) != 1 || x.Results[0] != ssa.Value(call) {
+				return fn
+			}
+		case *ssa.MakeMap, *ssa.MakeInterface, *ssa.Alloc, *ssa.Store, *ssa.UnOp, *ssa.ChangeType:
+			// building the fresh context argument, or copying a value receiver
+		case *ssa.DebugRef:
+		default:
+			return fn
+		}
+	}
+	if call == nil {
+		return fn
+	}
+	callee := call.Call.StaticCallee()
+	if callee == nil || callee.Signature.Recv() == nil || len(call.Call.Args) < len(fn.Params) || callee.Blocks == nil {
+		return fn
+	}
+	// same receiver, parameters handed on in order
+	if !types.Identical(callee.Signature.Recv().Type(), fn.Signature.Recv().Type()) {
+		return fn
+	}
+	for i, p := range fn.Params {
+		a := call.Call.Args[i]
+		if a == ssa.Value(p) {
+			continue
+		}
+		// a value receiver is passed on as a copy loaded from a local
+		if ld, ok := a.(*ssa.UnOp); ok && i == 0 {
+			if _, isAlloc := ld.X.(*ssa.Alloc); isAlloc {
+				continue
+			}
+		}
+		return fn
+	}
+	return c.M.Source(callee)
+}
+
+// compatName normalises the names under which the compatibility operation appears in calls.
+func compatName(n string) string {
+	if n == "validateCompatibilityIn" {
+		return "ValidateCompatibility"
+	}
+	return n
+}
+
+// isOpDispatcher: a package-level function that performs a data operation on its first parameter on the caller's
+// behalf: its body invokes (or, after a type assertion, calls) the operation on that parameter and hands the result
+// back. `validateCompatibilityIn(schema, typeOrData, compared)` is the one there is.
+func (c *Ctx) isOpDispatcher(fn *ssa.Function) (string, bool) {
+	if fn == nil || fn.Signature.Recv() != nil || len(fn.Params) < 2 || fn.Blocks == nil {
+		return "", false
+	}
+	if v, ok := c.dispatchMemo[fn]; ok {
+		return v, v != ""
+	}
+	if c.dispatchMemo == nil {
+		c.dispatchMemo = map[*ssa.Function]string{}
+	}
+	name := ""
+	for _, b := range fn.Blocks {
+		for _, in := range b.Instrs {
+			call, ok := in.(*ssa.Call)
+			if !ok || !call.Call.IsInvoke() {
+				continue
+			}
+			recv := call.Call.Value
+			if ta, ok := recv.(*ssa.TypeAssert); ok {
+				recv = ta.X
+			}
+			if ex, ok := recv.(*ssa.Extract); ok {
+				if ta, ok := ex.Tuple.(*ssa.TypeAssert); ok {
+					recv = ta.X
+				}
+			}
+			if recv != ssa.Value(fn.Params[0]) {
+				continue
+			}
+			switch n := compatName(call.Call.Method.Name()); n {
+			case "Unserialize", "Validate", "Serialize", "ValidateCompatibility":
+				if len(call.Call.Args) >= 1 && call.Call.Args[0] == ssa.Value(fn.Params[1]) {
+					name = n
+				}
+			}
+		}
+	}
+	c.dispatchMemo[fn] = name
+	return name, name != ""
+}
+
+// opCall: the data operation a call performs on a schema value, under its public name: an invoke or a static method call
+// of Unserialize / Validate / Serialize / ValidateCompatibility (validateCompatibilityIn is reported as
+// ValidateCompatibility), or a call of a dispatcher. recv is the schema value operated on, arg the data / schema handed
+// to it.
+func (c *Ctx) opCall(cc *ssa.CallCommon) (name string, recv, arg ssa.Value, ok bool) {
+	switch {
+	case cc.IsInvoke():
+		name, recv = compatName(cc.Method.Name()), cc.Value
+		if len(cc.Args) > 0 {
+			arg = cc.Args[0]
+		}
+	default:
+		sc := cc.StaticCallee()
+		if sc == nil {
+			return "", nil, nil, false
+		}
+		if n, isDisp := c.isOpDispatcher(sc); isDisp {
+			return n, cc.Args[0], cc.Args[1], true
+		}
+		if sc.Signature.Recv() == nil || len(cc.Args) == 0 {
+			return "", nil, nil, false
+		}
+		name, recv = compatName(sc.Name()), cc.Args[0]
+		if len(cc.Args) > 1 {
+			arg = cc.Args[1]
+		}
+	}
+	switch name {
+	case "Unserialize", "Validate", "Serialize", "ValidateCompatibility":
+		return name, recv, arg, true
+	}
+	return "", nil, nil, false
+}
+
 // entryData: the data-facing API of every Serializable implementer.
 func (c *Ctx) entryData(names ...string) []*ssa.Function {
 	if len(names) == 0 {
@@ -163,3 +308,24 @@ func (c *Ctx) reachableOutsideRecover(roots []*ssa.Function) map[*ssa.Function]b
 func (c *Ctx) short(fn *ssa.Function) string { return c.M.Key(fn) }
 
 var _ = core.Discharged
+
+// opCallStatic is opCall for callers without a Ctx: dispatchers are recognised by shape only (a package-level function
+// named like the operation's internal form).
+func opCallStatic(cc *ssa.CallCommon) (name string, recv, arg ssa.Value, ok bool) {
+	if cc.IsInvoke() {
+		name, recv = compatName(cc.Method.Name()), cc.Value
+		if len(cc.Args) > 0 {
+			arg = cc.Args[0]
+		}
+	} else if sc := cc.StaticCallee(); sc != nil && len(cc.Args) > 0 {
+		name, recv = compatName(sc.Name()), cc.Args[0]
+		if len(cc.Args) > 1 {
+			arg = cc.Args[1]
+		}
+	}
+	switch name {
+	case "Unserialize", "Validate", "Serialize", "ValidateCompatibility":
+		return name, recv, arg, true
+	}
+	return "", nil, nil, false
+}
